@@ -245,6 +245,122 @@ def run_invalid_kinds(ctx):
                          "%s(..., error=<%s>) is a documented form but was rejected: %s" % (dname, gname, got))
 
 
+def run_method_owners(ctx, only=None):
+    """`error` given as a BOUND METHOD, for every kind of owner: an object nothing else refers to (written inline in the
+    decorator, or deleted after decoration, with a garbage collection before the call), an instance of a __slots__ class
+    (not weakly referenceable), a class (classmethod), a long-lived object. On a violation the method is called once and
+    the exception it returns is raised as that very object. x role {require, ensure, invariant} x sync/async."""
+    import gc
+    import itertools
+    import icontract
+    from vf.progmodel.run import drive
+
+    made = []
+
+    class Owner:
+        def __init__(self, tag):
+            self.tag = tag
+
+        def make(self):
+            e = KeyError("made by %s" % self.tag)
+            made.append(e)
+            return e
+
+    class Slotted:
+        __slots__ = ("tag",)
+
+        def __init__(self, tag):
+            self.tag = tag
+
+        def make(self):
+            e = KeyError("made by %s" % self.tag)
+            made.append(e)
+            return e
+
+    class WithClassmethod:
+        @classmethod
+        def make(cls):
+            e = KeyError("made by the class")
+            made.append(e)
+            return e
+
+    keeper = Owner("kept")
+    for owner, role, is_async in itertools.product(("inline", "deleted", "slots", "slots-inline", "classmethod", "kept"),
+                                                   ("require", "ensure", "invariant"), (False, True)):
+        key = [owner, role, is_async]
+        if only is not None and only != key:
+            continue
+        try:
+            if owner == "inline":
+                method = Owner("inline").make
+            elif owner == "deleted":
+                tmp = Owner("deleted")
+                method = tmp.make
+                del tmp
+            elif owner == "slots":
+                tmp = Slotted("slots")
+                method = tmp.make
+            elif owner == "slots-inline":
+                method = Slotted("slots-inline").make
+            elif owner == "classmethod":
+                method = WithClassmethod.make
+            else:
+                method = keeper.make
+            if role == "invariant":
+                deco = icontract.invariant(lambda self: False, error=method)
+            else:
+                deco = getattr(icontract, role)(lambda: False, error=method)
+            del method
+            if role == "invariant":
+                if is_async:
+                    class K:
+                        def __init__(self):
+                            pass
+
+                        async def m(self):
+                            return 1
+                else:
+                    class K:
+                        def __init__(self):
+                            pass
+
+                        def m(self):
+                            return 1
+                # the invariant is added after construction so that the method call is what trips over it
+                obj = K()
+                K = deco(K)
+                obj.__class__ = K
+                call = obj.m
+            else:
+                if is_async:
+                    async def f():
+                        return 1
+                else:
+                    def f():
+                        return 1
+                call = deco(f)
+            gc.collect()
+            del made[:]
+            try:
+                r = call()
+                if is_async:
+                    r = drive(r)
+                got = "returned %r" % (r,)
+            except KeyError as e:
+                got = "raised the made object" if (len(made) == 1 and e is made[0]) else "KeyError, but made=%r" % (made,)
+            except BaseException as e:  # noqa
+                got = "%s: %s" % (type(e).__name__, str(e).splitlines()[0] if str(e) else "")
+        except BaseException as e:  # noqa
+            got = "set-up failed with %s: %s" % (type(e).__name__, e)
+        ctx.case(["method-owner"] + key, owner != "kept", sample={"directed": "error=<bound method>, owner: %s, %s%s" % (
+            owner, role, " (async)" if is_async else "")})
+        ctx.count("directed:method-owners")
+        if got != "raised the made object":
+            ctx.fail("method-owner|%s|%s" % (owner, role), {"method_owner": key},
+                     "%s(..., error=<bound method of a %s owner>)%s: the method must be called once on the violation and the "
+                     "exception it returns raised; got: %s" % (role, owner, " on an async callable" if is_async else "", got))
+
+
 class _Holder:
     def make(self):
         return ValueError("x")
@@ -295,6 +411,7 @@ def run(ctx, tier, seed, shard, nshards):
             run_cell(ctx, form, role, kind, is_async, trig)
         run_bad_factories(ctx)
         run_invalid_kinds(ctx)
+        run_method_owners(ctx)
         ctx.exhaustive = True
         ctx.extra["exhaustive_scope"] = "the form x role x kind x sync/async matrix and the invalid-kind table"
     n = 200 if tier == "quick" else 1500
@@ -313,4 +430,6 @@ def replay(ctx, case):
         return run_cell(ctx, form, role, kind, is_async, trig)
     if "invalid" in case:
         return run_invalid_kinds(ctx)
+    if "method_owner" in case:
+        return run_method_owners(ctx, only=case["method_owner"])
     D.replay_case(ctx, case, S.judge_c16)
